@@ -16,15 +16,15 @@ import (
 // The replay history is a set of map-typed "generation" fields of ReplayCache plus one integer capacity. What the
 // rule decides (necessary conditions of the property; the counting argument itself is not decided):
 //
-//   (a) remembered handshakes are forgotten only by rotation of a full generation: every store to a generation
-//       field outside construction either moves another generation there on an edge where that generation's
-//       size was compared against the capacity and found full, or installs an empty map into a generation whose
-//       previous content was moved out just before — or sits on an edge where the capacity is zero (history off);
-//       no delete/clear is applied to a generation map except on such an edge;
-//   (b) Add consults every generation with the key it inserts, and a hit in any of them makes it return false;
-//   (c) on every path on which Add can answer "new" with the history enabled, the key has been inserted
-//       (a refused replay is re-inserted too: "checked" handshakes count, not only accepted ones);
-//   (d) the key is computed from both the access-key id and the salt.
+//	(a) remembered handshakes are forgotten only by rotation of a full generation: every store to a generation
+//	    field outside construction either moves another generation there on an edge where that generation's
+//	    size was compared against the capacity and found full, or installs an empty map into a generation whose
+//	    previous content was moved out just before — or sits on an edge where the capacity is zero (history off);
+//	    no delete/clear is applied to a generation map except on such an edge;
+//	(b) Add consults every generation with the key it inserts, and a hit in any of them makes it return false;
+//	(c) on every path on which Add can answer "new" with the history enabled, the key has been inserted
+//	    (a refused replay is re-inserted too: "checked" handshakes count, not only accepted ones);
+//	(d) the key is computed from both the access-key id and the salt.
 const replayT = "service.ReplayCache"
 
 type histModel struct {
